@@ -1,5 +1,7 @@
 import SC.Properties.C02
 import SC.Properties.C01
+import SC.Properties.C09
+import SC.Properties.C10
 /-!
 # C15 — ill-formed UTF-8: every bad byte is one U+FFFD, in every function alike
 
@@ -29,6 +31,17 @@ theorem bad_start (b : UInt8) (rest : Bytes) (h : 0xF5 ≤ b ∨ (0x80 ≤ b ∧
 
 /-- Compare / EqualFold: the refinement holds with no validity hypothesis -/
 theorem compare_any_bytes (cfg : A.Cfg) (s t : Bytes) : A.Compare cfg s t = S.compare s t := C04.compare_refines cfg s t
+
+/-- Index, Contains, IndexRune, the prefix/suffix family: the refinement theorems carry no validity
+    hypothesis — every function reads its arguments through `dec`, one U+FFFD of width 1 per ill-formed byte -/
+theorem search_any_bytes (cfg : A.Cfg) (s t : Bytes) (r : Int) :
+    A.Index cfg s t = S.index s t ∧ A.Contains cfg s t = S.contains s t ∧ A.IndexRune cfg s r = S.indexRune s r ∧
+    A.HasPrefix cfg s t = S.hasPrefix s t ∧ A.HasSuffix cfg s t = S.hasSuffix s t ∧
+    A.TrimPrefix cfg s t = S.trimPrefix s t ∧ A.TrimSuffix cfg s t = S.trimSuffix s t ∧
+    A.CutPrefix cfg s t = S.cutPrefix s t ∧ A.CutSuffix cfg s t = S.cutSuffix s t :=
+  ⟨C01.index_refines cfg s t, C01.contains_refines cfg s t, C10.indexRune_refines cfg s r, C09.hasPrefix_refines cfg s t,
+   C09.hasSuffix_refines cfg s t, C09.trimPrefix_refines cfg s t, C09.trimSuffix_refines cfg s t,
+   C09.cutPrefix_refines cfg s t, C09.cutSuffix_refines cfg s t⟩
 
 /-- the examples of the property statement, on the specification and on the algorithm model -/
 example : S.index [0x61, 0xFF] [0xEF, 0xBF, 0xBD] = 1 ∧ A.Index {} [0x61, 0xFF] [0xEF, 0xBF, 0xBD] = 1 ∧
